@@ -502,6 +502,7 @@ def run(rec, shard, nshards, t):
                         'kinds': [r['kind'] for r in rows]})
             witnesses(rec, tmp)
             locale_probe(rec, tmp)
+            tz_probe(rec, tmp)
     finally:
         shutil.rmtree(tmp, ignore_errors=True)
 
@@ -547,6 +548,40 @@ def locale_probe(rec, tmp):
             rec.violation('statement-read-depends-on-locale', f'format {src["format"]!r}: {len(here)} transactions here, under LC_ALL=C: {str(there)[:200]}', {'kind': 'locale'})
 
 
+def tz_probe(rec, tmp):
+    """Date cells that carry a UTC offset (bank API exports): the transaction's date is the calendar date WRITTEN in the cell - an evening purchase on 31 January
+    belongs to January wherever the reader's clock is."""
+    p = os.path.join(tmp, 'tz.csv')
+    rows = [('2025-01-31T21:15:00-0500', (2025, 1, 31)), ('2024-02-29T23:59:00-0800', (2024, 2, 29)), ('2024-12-31T20:00:00-0600', (2024, 12, 31)),
+            ('2025-03-01T00:30:00+0900', (2025, 3, 1)), ('2025-06-15T12:00:00+0000', (2025, 6, 15)), ('2025-07-01T00:00:00+1400', (2025, 7, 1))]
+    with open(p, 'w', newline='') as f:
+        f.write('When,What,Amount\n' + ''.join('%s,SHOP %d,%d.00\n' % (c, i, 10 + i) for i, (c, _) in enumerate(rows)))
+    for tz in (None, 'TLY+12', 'TLY-14'):
+        old_tz = os.environ.get('TZ')
+        try:
+            if tz:
+                os.environ['TZ'] = tz
+                import time as _time
+                _time.tzset()
+            got = parse(p, {'name': 'Src', 'file': 'x', 'format': '{date:%Y-%m-%dT%H:%M:%S%z},{description},{amount}'})
+        except Exception as e:
+            rec.violation('offset-dated-rows-abort-source', f'{type(e).__name__}: {e}', {'kind': 'tz'})
+            return
+        finally:
+            if tz:
+                if old_tz is None:
+                    os.environ.pop('TZ', None)
+                else:
+                    os.environ['TZ'] = old_tz
+                _time.tzset()
+        rec.case()
+        rec.count('offset_dated_files_read')
+        dates = [(t['date'].year, t['date'].month, t['date'].day) for t in got]
+        if dates != [d for _, d in rows]:
+            rec.violation('row-date-differs:utc-offset', f'process TZ {tz}: cells {[c for c, _ in rows]} read as dates {dates}', {'kind': 'tz'})
+            return
+
+
 def witnesses(rec, tmp):
     """Regression witnesses of the two repaired defects."""
     p = os.path.join(tmp, 'w.csv')
@@ -576,6 +611,9 @@ def replay(rec, case):
             return
         if case['kind'] == 'locale':
             locale_probe(rec, tmp)
+            return
+        if case['kind'] == 'tz':
+            tz_probe(rec, tmp)
             return
         if case['kind'] == 'twin':
             rnd = core.rng_for('C05', 'replay')
